@@ -69,16 +69,15 @@ def family(ctx, cfg, workers=4, timeout=300, overrides=None, tag=None, coverage=
     return res
 
 
-def run_families(ctx, fams, workers, timeout):
-    """fams: list of (cfg, overrides).  Runs them concurrently; each must pass (model theorem)."""
+def run_families(ctx, fams, workers, timeout, par=3, suffix=""):
+    """fams: list of (cfg, overrides).  Runs them `par` at a time; each must pass (model theorem)."""
     def one(f):
         cfg, ov = f
-        return cfg, family(ctx, cfg, workers=workers, timeout=timeout, overrides=ov)
+        return cfg, family(ctx, cfg, workers=workers, timeout=timeout, overrides=ov,
+                           tag=os.path.splitext(cfg)[0] + suffix)
     out = []
-    for cfg, res in V.parallel(one, fams, n=len(fams)):
-        if not res.ok and not res.timed_out:
-            res2 = family(ctx, cfg, workers=workers, timeout=timeout, overrides=dict(fams)[cfg] if False else None) if res.error and "java" in (res.error or "") else res
-            res = res2
+    for cfg, res in V.parallel(one, fams, n=par):
+        cfg = cfg + suffix
         V.require_model_ok(ctx, res, cfg)
         ctx.log("model %s: %d distinct / %d generated states, depth %d, %.0fs%s" % (
             cfg, res.distinct, res.generated, res.depth, res.wall, " (TIMED OUT)" if res.timed_out else ""))
@@ -128,6 +127,10 @@ def gen_conf(rnd, prop, k, quick):
         c["maxcsz"] = rnd.choice([1, 120, 120, 0])
     elif prop == "C03":
         c["storage"] = rnd.choice(["memory", "rocks-mem", "rocks-pebble"])
+    if prop in ("C02", "C03") and k % 3 == 2:
+        # apply-stall profile: directed scenario scenarioStallCatchup (three times), then the nemesis
+        c.update(profile="stall", n=3, voters=[1, 2, 3], learners=[], maxcsz=120, maxsz=rnd.choice([0, 120, 120]),
+                 storage=["rocks-pebble", "memory", "rocks-mem"][(k // 3) % 3], steps=400)
     return c
 
 
@@ -171,9 +174,9 @@ def trace_env(trace):
             "ZR_PREVOTE": "1" if c["prevote"] else "0", "ZR_CQ": "1" if c["cq"] else "0"}
 
 
-def validate(ctx, trace, tag, timeout=240):
+def validate(ctx, trace, tag, timeout=240, cfg="ZRaftTrace.cfg"):
     """Returns dict(accepted, line, invariant, res)."""
-    res = V.tlc(ctx, "ZRaftTrace", "ZRaftTrace.cfg", workers=1, timeout=timeout, env=trace_env(trace),
+    res = V.tlc(ctx, "ZRaftTrace", cfg, workers=1, timeout=timeout, env=trace_env(trace),
                 deque=True, heap="2g", tag="tv-" + tag)
     hw = ln = None
     for p in res.prints:
@@ -249,12 +252,6 @@ def signature(events, v, c):
     if ev:
         voters = ev.get("post", {}).get("voters") or []
         sig["single_voter"] = len(voters) == 1
-        if ev.get("ev") == "advance" and str(c.get("storage", "")).startswith("rocks") and line:
-            # the Ready being advanced carried a snapshot and the log is longer than it afterwards
-            prev = [e for e in events[:line - 1] if e.get("n") == ev.get("n") and e.get("ev") == "ready"]
-            si = prev[-1]["rd"]["snap"]["idx"] if prev else 0
-            if si > 0 and ev.get("post", {}).get("last", 0) > si:
-                sig["rocks_snapshot_stale_tail"] = True
         if ev.get("ev") == "unsettled":
             # a replica that was started as learner, restarted as a non-learner, and is behind at the end
             started_l = {e["n"] for e in events if e.get("ev") == "start" and e.get("b") == 1}
@@ -304,9 +301,9 @@ def conformance(ctx, zr, prop, confs, stats, samples, par=8, expect_sig=None):
             trace, summ, err = drive(ctx, zr, c, seed, tag)        # retry once
         if trace is None:
             return item, None, None, err
-        v = validate(ctx, trace, tag)
+        v = validate(ctx, trace, tag, cfg=c.get("tracecfg", "ZRaftTrace.cfg"))
         if not v["accepted"] and v["res"].timed_out:
-            v = validate(ctx, trace, tag, timeout=600)
+            v = validate(ctx, trace, tag, timeout=600, cfg=c.get("tracecfg", "ZRaftTrace.cfg"))
         return item, trace, summ, v
     for item, trace, summ, v in V.parallel(one, confs, n=par):
         tag, c, seed = item
@@ -344,7 +341,7 @@ def conformance(ctx, zr, prop, confs, stats, samples, par=8, expect_sig=None):
         sig, ev = signature(events, v, c)
         p = attribute(ev, v["invariant"], prop)
         what = "%s (seed %d, %s): trace line %s of %s %s; event %s" % (
-            tag, seed, json.dumps({k: c[k] for k in c if k != "script"}, separators=(",", ":")), v["line"], v["length"],
+            tag, seed, json.dumps({k: c[k] for k in c if k not in ("script", "tracecfg")}, separators=(",", ":")), v["line"], v["length"],
             ("violates invariant " + v["invariant"]) if v["invariant"] else "is not a step of ZRaft's strict layer",
             json.dumps(slim(ev)) if ev else "?")
         stats["rejected"] += 1
@@ -431,16 +428,17 @@ FAMILIES = {
 }
 # quick tier: smaller constants per family (measured: every run below finishes in < 90 s at 3 workers)
 QUICK_OVERRIDES = {
-    "MC_ZRaft_Election_00.cfg": {"MaxDup": "0", "MaxProp": "1", "MaxMsgs": "3"},
+    # measured at 8 workers on this box (load ~100): 13-45 s each, 24k-101k distinct states
+    "MC_ZRaft_Election_00.cfg": {"MaxDup": "0", "MaxProp": "0", "MaxMsgs": "4"},
     "MC_ZRaft_Election_01.cfg": {"MaxDup": "0", "MaxProp": "1", "MaxMsgs": "3"},
-    "MC_ZRaft_Election_10.cfg": {"MaxDup": "0", "MaxProp": "0", "MaxMsgs": "3"},
+    "MC_ZRaft_Election_10.cfg": {"MaxDup": "0", "MaxProp": "0", "MaxMsgs": "4"},
     "MC_ZRaft_Election_11.cfg": {"MaxDup": "0", "MaxProp": "0", "MaxMsgs": "3"},
     "MC_ZRaft_Log.cfg": {"MaxElect": "2", "MaxProp": "1", "MaxLog": "2", "FHeartbeat": "FALSE", "FSnap": "FALSE"},
     "MC_ZRaft_Crash.cfg": {"MaxElect": "1", "MaxProp": "0", "MaxCrash": "1", "FPartial": "FALSE", "MaxMsgs": "2", "MaxLog": "1"},
     "MC_ZRaft_Conf.cfg": {"Collapsed": "TRUE", "MaxMsgs": "3"},
     "MC_ZRaft_ConfShrink.cfg": {"Collapsed": "TRUE", "MaxMsgs": "3"},
 }
-# thorough tier: the cfg files as they are, except where the full instance is beyond 25 min here
+# thorough tier: the quick-bounded instance (must complete) AND the cfg file as it is (may hit its time-out)
 THOROUGH_OVERRIDES = {}
 
 ASSUMPTIONS = [
@@ -473,14 +471,17 @@ def run_check(ctx, prop):
     quick = ctx.quick()
     stats = new_stats()
     samples = []
-    fams = [(f, (QUICK_OVERRIDES if quick else THOROUGH_OVERRIDES).get(f, {})) for f in FAMILIES[prop]]
+    fams = [(f, QUICK_OVERRIDES.get(f, {})) for f in FAMILIES[prop]]
     model = {}
 
     def do_model():
         if os.environ.get("ZR_SKIP_MODEL"):      # development aid for detection tables: (A) does not depend on /repo
             model["runs"] = []
             return
-        model["runs"] = run_families(ctx, fams, workers=2 if quick else 4, timeout=420 if quick else 1500)
+        model["runs"] = run_families(ctx, fams, workers=4, timeout=300, par=3)
+        if not quick:
+            full = [(f, {}) for f in FAMILIES[prop]]
+            model["runs"] += run_families(ctx, full, workers=6, timeout=1200, par=2, suffix="-full")
 
     def do_traces():
         ntr = 14 if quick else 120
@@ -508,16 +509,29 @@ def run_check(ctx, prop):
                    profile="noconf", steps=120)
         before = stats["rejected"]
         conformance(ctx, zr, prop, [("single-voter-isolate", iso, ctx.seed)], stats, samples, par=1, expect_sig=True)
+        stats["isolate_rejected"] = stats["rejected"] - before
         if prop in ("C02", "C03"):
-            # the schedule that exhibits it (found by a seed search with -noavoid; deterministic)
-            iso2 = dict(n=4, voters=[1, 2, 3], learners=[], prevote=False, cq=False, maxsz=0, maxcsz=0,
-                        storage="rocks-mem", profile="noconf", steps=1200, noavoid=True)
-            conformance(ctx, zr, prop, [("rocks-stale-tail-isolate", iso2, 3001)], stats, samples, par=1, expect_sig=True)
+            # formerly the isolate stage of finding rocks-applysnapshot-stale-tail (fixed in 4d5b9c4):
+            # the schedule that exhibited it is now an ordinary strict stage
+            st2 = dict(n=4, voters=[1, 2, 3], learners=[], prevote=False, cq=False, maxsz=0, maxcsz=0,
+                       storage="rocks-mem", profile="noconf", steps=1200)
+            conformance(ctx, zr, prop, [("rocks-snapshot-over-longer-log", st2, 3001)], stats, samples, par=1)
+        if prop in ("C01", "C03"):
+            # grow from one voter + old snapshot + restart (scenarioGrowOne).  The group is a single-voter
+            # group for a while, so the one invariant of the open finding raft-single-voter-commit-before-
+            # persist (DurableCommit) is not evaluated in this stage (ZRaftTrace_growone.cfg); every
+            # guard and every other invariant stays strict.
+            g = [("grow-one-%d" % k, dict(n=3, voters=[1], learners=[], prevote=(k % 2 == 1), cq=(k % 2 == 1),
+                                         maxsz=1 << 20, maxcsz=1, storage=["memory", "rocks-pebble"][k % 2],
+                                         profile="growone", steps=250, allow1=True, tracecfg="ZRaftTrace_growone.cfg"),
+                  ctx.seed * 1000 + 900 + k) for k in range(2 if quick else 8)]
+            conformance(ctx, zr, prop, g, stats, samples, par=2 if quick else 6)
+        before = stats["rejected"]
         if prop == "C03":
             iso3 = dict(n=4, voters=[1, 2, 3], learners=[4], prevote=False, cq=False, maxsz=0, maxcsz=1,
-                        storage="memory", profile="mixed", steps=900, noavoid=True)
-            conformance(ctx, zr, prop, [("restarted-learner-isolate", iso3, 8009)], stats, samples, par=1, expect_sig=True)
-        stats["isolate_rejected"] = stats["rejected"] - before
+                        storage="memory", profile="mixed", steps=600, noavoid=True)
+            conformance(ctx, zr, prop, [("restarted-learner-isolate", iso3, 8007)], stats, samples, par=1, expect_sig=True)
+        stats["isolate_rejected"] += stats["rejected"] - before
 
     for _ in V.parallel(lambda f: f(), [do_model, do_traces], n=2):
         pass
